@@ -41,3 +41,24 @@ package keys
 //@ requires p != nil
 //@ ensures[len] len(signature) != SignatureLen ==> !result
 //@ call ecdsa::Verify requires[len] len(signature) == SignatureLen
+
+// C18, key encoding: both coordinates are written left-padded to the coordinate length
+// (big.Int.FillBytes), X into bytes 1..32, Y - in the uncompressed form - into bytes 33..64.
+//@ func (*PublicKey).IsInfinity
+//@ inline
+//@ func (*PublicKey).writeBytes
+//@ may-panic
+//@ opt frame off
+//@ requires p != nil
+//@ call (*Int).FillBytes requires[slot] (arg0 == p.X && len(arg1) == 32) || (arg0 == p.Y && len(arg1) == 32 && !compressed)
+//@ ensures[both] !old(p.X == nil && p.Y == nil) ==> ncalls("(*Int).FillBytes") == ite(compressed, 1, 2)
+
+// C18, NEP-2: the passphrase is normalised the same way (NFC) for encryption and decryption.
+//@ func NEP2Encrypt
+//@ may-panic
+//@ opt frame off
+//@ call (Form).Bytes requires[nfc] arg0 == 0   // norm.NFC, the first of the four forms
+//@ func NEP2Decrypt
+//@ may-panic
+//@ opt frame off
+//@ call (Form).Bytes requires[nfc] arg0 == 0   // norm.NFC, the first of the four forms
